@@ -93,7 +93,7 @@ DoRegenerate ==
    argument-only update (weight 0, choices unchanged - but a Cond's hidden branch takes over the visible values), which the
    action therefore includes: base = update(cur, no constraints, same model arguments).                                  *)
 DoMH ==
-  /\ "mh" \in OpKinds /\ cur # NoTrace /\ GF[prog].kind = "fn"   \* a vectorised top-level trace does not remember its Vmap
+  /\ "mh" \in OpKinds /\ cur # NoTrace /\ GF[prog].kind \in {"fn", "cond"}   \* a vectorised top-level trace does not remember its Vmap
   /\ \E s \in SelsFor(prog) : \E scr \in Scripts(prog, SelectedLeaves(prog, s)) : \E acc \in {TRUE, FALSE} :
        LET base == IUpd(prog, cur, NoC, cur.arg).tr
            r == IRegen(prog, base, s, cur.arg, scr, <<>>) IN
